@@ -4,6 +4,7 @@ import props_sketch
 import props_store
 import props_cache
 import props_life
+import props_keys
 
 COMMON_ASSUMPTIONS = [
     "rustc's type checker / MIR construction and the fact extractor's serialisation are trusted",
@@ -71,6 +72,20 @@ PROPS = {
                 explanation="close() decided structurally: every public operation tests is_closed before its first effect and returns the neutral value when closed, close() must pass through "
                             "stop signal + policy.close() + flag, worker loops return on their stop arm for message and disconnect alike and own no sender, no public operation unwraps a "
                             "Result whose Err is constructible (interprocedural may-Err analysis)."),
+    "C18": dict(fn=props_keys.check_C18, floor={"sync": 40, "async": 40},
+                explanation="Key identity decided structurally: every TransparentHasher::write_* stores `i as u64`, finish returns it, TransparentKeyBuilder hashes through a fresh "
+                            "identity hasher with conflict 0, build_key = (hash_index, hash_conflict); key hashing is pure (no clock / RNG / global / self mutation, seed drawn once, builder "
+                            "never written after finalize); the conflict test guards all five store accessors; every cache operation passes index and conflict of one build_key call; "
+                            "charge isolation of colliding keys = R06.2 (known finding F10)."),
+    "C02": dict(fn=props_keys.check_C02, floor={"sync": 50, "async": 50},
+                explanation="Same-key lookups decided structurally: one shard selector in all accessors, a reference is handed out only for the looked-up key past the conflict and expiry "
+                            "guards and borrows from that item under the guard moved into it, resident values are written only by store.try_update (after conflict + validator) and "
+                            "through ValueRefMut, the swapped-out value goes to on_exit only, every insert runs the in-place update before returning, remove deletes before returning and "
+                            "queues Delete on the single FIFO, store.try_insert only for admitted items."),
+    "C04": dict(fn=props_keys.check_C04, floor={"sync": 40, "async": 40},
+                explanation="Closed-world argument: every site that removes or overwrites a store entry or releases a charge is inventoried (shard mutations, callers of try_remove / "
+                            "clear / policy.remove / SampledLFU::remove) and each category's guard is checked: eviction/rejection only while room < 0, sweeper only for due, non-zero, "
+                            "elapsed deadlines of the same key, expiry-index update moves exactly one key, an absent key is always inserted, insert fails only on buffer-full/closed."),
 }
 
 NOT_APPLICABLE = {}
